@@ -574,7 +574,8 @@ def gen_facts(rng, sig, size=None, rules=None):
     # facts that make rule premises match: instantiate the premise of some rules with elements
     flat = [p for ru in (rules or []) for p in rule_paths(ru)]
     for ru in flat:
-        if not rng.chance(2, 3):
+        # (almost) every path of every rule gets at least one matching instance of its premise
+        if not rng.chance(9, 10):
             continue
         for _ in range(1 + rng.below(2)):
             instantiate_premise(rng, sig, ru, elems, facts, by_type, new_elem)
